@@ -48,6 +48,7 @@ func moduleFuncs() map[string]flamingo.TemplateFunc {
 		"trim":       &templatefunctions.TrimFunc{},
 		"escapeHtml": &templatefunctions.EscapeHTMLFunc{},
 		"parseInt":   &templatefunctions.ParseInt{},
+		"debug":      templatefunctions.DebugFunc{},
 		"vpIdent":    plainFunc(func(x interface{}) interface{} { return x }),
 		// an application that registers a template function called "range" makes `range(a, b)` compile to the built-in __Range
 		"range": plainFunc(func(x interface{}) interface{} { return x }),
